@@ -53,6 +53,10 @@ P('C08','control-dependence and value-flow (taint) rules on header writes, order
   "Decides on every path of addHeaders/ServeHTTP: authoritative headers are Set from the connection independent of anything the client sent (TLS header Set/Del exhaustive over r.TLS), default headers only when absent and derived from the connection / requested host, forwarding headers derived before any Host rewrite, all Upgrade tests agree, the websocket X-Forwarded-For ends with the peer, HSTS only on TLS responses, request id always from the generator, host/port splits bracket-aware. Header text formats (Forwarded, protocol names) are string contents and not decided.",
   COMMON_NOTE)
 
+P('C16','gate dominance on the interceptor, writer/reader agreement of the context key, value-flow (wiring) rules for director and server options, guarded-by and key-canonicality rules on the connection pool, check-then-act and loop-pacing rules',
+  "The only check of gRPC proxying (no test exists). Decides structurally: handler only with a target and no lookup error, NotFound/Internal on the failure edges, context key and asserted type agree between interceptor and director, outgoing metadata is a copy of the incoming metadata of the same call, connection from the pool for the chosen target, server options wire codec/transparent handler/interceptor/size limits (not swapped), lookup by full method + single dsthost + configured strategy/matcher on one table snapshot, pool map only under its lock with canonical keys, insert re-checked under the write lock, cleanup paced with the lock released and vanished targets dropped. Message/metadata/status transparency is delegated to grpc-proxy/grpc-go and not decided.",
+  COMMON_NOTE)
+
 checks=[]; na=[]
 for p in props:
     id=p['id']
